@@ -7,13 +7,22 @@ CFG = "INIT Init\nNEXT Next\nCHECK_DEADLOCK FALSE\nINVARIANT Good\n"
 def design(ctx, n: int, families=("comments", "operands", "misc")) -> None:
     for fam in families:
         rs = tlc.run_sharded("MC_Scanner", CFG, tag=f"{ctx.prop.lower()}.scanner.{fam}", nshards=8, heap="2g",
-                             env={"MAXLEN": n, "FAMILY": fam, "CHECKEOF": 1}, timeout=7200)
+                             env={"MAXLEN": n, "FAMILY": fam, "CHECKEOF": 1, "OLDSIZE": 0}, timeout=7200)
         ctx.add_tlc(rs, f"MC_Scanner family={fam}: all inputs <= {n} characters, NoSpin + PositionLaw")
 
 
 def refute_pinned_comment_loop(ctx) -> None:
     m = tlc.run("MC_Scanner", CFG, tag=f"{ctx.prop.lower()}.scanner.mutant", allow_violation=True,
-                env={"MAXLEN": 3, "FAMILY": "comments", "CHECKEOF": 0, "SHARD": 0, "NSHARDS": 1})
+                env={"MAXLEN": 3, "FAMILY": "comments", "CHECKEOF": 0, "OLDSIZE": 0, "SHARD": 0, "NSHARDS": 1})
     if m.violated != "Good":
         raise tlc.TLCFailure("spec mutant CHECKEOF=0 (pinned comment loop) was not refuted by MC_Scanner")
     ctx.note("spec mutant CHECKEOF=0 (pinned block-comment loop) refuted by TLC on the scanner model, as required")
+
+
+def refute_old_size_error(ctx) -> None:
+    """spec mutant: the design in which a missing size specifier consumes the line end (before the fix)"""
+    m = tlc.run("MC_Scanner", CFG, tag=f"{ctx.prop.lower()}.scanner.mutant2", allow_violation=True, workers=8,
+                env={"MAXLEN": 5, "FAMILY": "operands", "CHECKEOF": 1, "OLDSIZE": 1, "SHARD": 0, "NSHARDS": 1})
+    if m.violated != "Good":
+        raise tlc.TLCFailure("spec mutant OLDSIZE=1 (size error consumes the newline) was not refuted by MC_Scanner")
+    ctx.note("spec mutant OLDSIZE=1 (missing size specifier reported on the next line) refuted by TLC on the scanner model, as required")
